@@ -31,7 +31,7 @@ NJOBS = int(os.environ.get("VERIF_JOBS", "10"))  # measured: no throughput gain 
 class Query:
     def __init__(self, name, harness, entry, defs=None, sources=(), unwind=4, backend="minisat", paths=False, cap_s=300,
                  mem_gb=8, ll2c_cap=8, memcap=8, extra_cbmc=(), keep_ctors=False, tiers=("quick", "thorough"),
-                 nsym=None, note="", allow_undefined=(), nin=64, no_pointer_overflow=False, cross=None, expect=None):
+                 nsym=None, note="", allow_undefined=(), nin=64, no_pointer_overflow=False, cross=None, expect=None, prelude=()):
         self.name = name
         self.harness = harness
         self.entry = entry
@@ -52,6 +52,7 @@ class Query:
         self.nin = nin
         self.no_pointer_overflow = no_pointer_overflow
         self.cross = cross  # optional second back end (thorough cross-check)
+        self.prelude = list(prelude)  # extra models to link: "string" (real libstdc++ basic_string<char> instantiated), "rbtree"
         self.validate = False  # set by run_property on a seeded sample of the queries
         self.expect = expect  # None, or a label that MUST fail (used for negative self-tests of the machinery)
 
@@ -140,7 +141,7 @@ def build_query(q, wd, bcdir):
     rc, o, e, to, dt, _ = sh(["clang++-14"] + CXXFLAGS + INC + defs + ["-c", "-emit-llvm", hsrc, "-o", hbc], timeout=600)
     if rc != 0:
         return None, "harness compile failed (a signature of the real code changed?):\n" + e[-3000:]
-    bcs = [hbc, os.path.join(bcdir, "cxxrt.bc")]
+    bcs = [hbc, os.path.join(bcdir, "cxxrt.bc")] + [os.path.join(bcdir, f"cxxrt_{x}.bc") for x in q.prelude]
     for s in q.sources:
         b, err = compile_source_bc(s, bcdir)
         if b is None:
@@ -273,9 +274,10 @@ def run_native_san(exe, inputs, wd):
     f = os.path.join(wd, "in_san.txt")
     with open(f, "w") as fh:
         fh.write("\n".join(hex(x) for x in inputs) + "\n")
-    env = dict(os.environ, LL2C_INPUT=f, ASAN_OPTIONS="detect_leaks=0:abort_on_error=0", UBSAN_OPTIONS="print_stacktrace=0")
+    env = dict(os.environ, LL2C_INPUT=f, ASAN_OPTIONS="detect_leaks=0:abort_on_error=0:alloc_dealloc_mismatch=0:new_delete_type_mismatch=0", UBSAN_OPTIONS="print_stacktrace=0")
     rc, o, e, to, dt, _ = sh([exe], timeout=120, env=env)
-    m = re.search(r"(ERROR: AddressSanitizer: [^\n]*|runtime error: [^\n]*)", e)
+    m = re.search(r"(ERROR: AddressSanitizer: (?:heap-use-after-free|heap-buffer-overflow|stack-buffer-overflow|global-buffer-overflow|"
+                  r"stack-use-after-scope|SEGV|attempting double-free|FPE|dynamic-stack-buffer-overflow)[^\n]*|runtime error: [^\n]*)", e)
     return m.group(1)[:200] if m else None
 
 
@@ -470,7 +472,7 @@ def run_query(q, wd, bcdir, tier, seed, known):
         os.makedirs(rp, exist_ok=True)
         desc, inp = confirmed[0] if allknown else [c for c in confirmed if not known(q, c[0])][0]
         r.replay_file = os.path.join(rp, f"{q.name}.replay.json")
-        json.dump({"query": q.name, "harness": q.harness, "entry": q.entry, "defs": q.defs, "sources": q.sources,
+        json.dump({"query": q.name, "harness": q.harness, "entry": q.entry, "defs": q.defs, "sources": q.sources, "prelude": q.prelude,
                    "keep_ctors": q.keep_ctors, "label": desc, "inputs": [hex(x) for x in inp]}, open(r.replay_file, "w"), indent=1)
         r.status = "known" if allknown else "violation"
         r.detail = "; ".join(d for d, _ in confirmed) + ("  [sanitizer: " + "; ".join(r.san_reports[:2]) + "]" if r.san_reports else "")
@@ -478,6 +480,16 @@ def run_query(q, wd, bcdir, tier, seed, known):
         r.status = "unconfirmed"
         r.detail = "CBMC counterexample did not reproduce on the natively compiled code: " + "; ".join(unconf)
     return r
+
+
+def build_prelude(bcdir):
+    for f in ("cxxrt", "cxxrt_string", "cxxrt_rbtree"):
+        rc, o, e, to, dt, _ = sh(["clang++-14", "-std=gnu++20", "-O1", "-fno-exceptions", "-flto", "-fvisibility=hidden", "-w", "-c", "-emit-llvm",
+                                  os.path.join(VERIF, "tools", f + ".cpp"), "-o", os.path.join(bcdir, f + ".bc")])
+        if rc != 0:
+            print("prelude build failed:\n" + e)
+            return False
+    return True
 
 
 def load_known():
@@ -517,10 +529,7 @@ def run_property(pid, mod, tier, seed):
         qs = [q for q in qs if re.search(only, q.name)]
     assert len(set(q.name for q in qs)) == len(qs), "duplicate query names"
     # prelude + shared repo TUs first (parallel)
-    rc, o, e, to, dt, _ = sh(["clang++-14", "-std=gnu++20", "-O1", "-fno-exceptions", "-flto", "-fvisibility=hidden", "-w", "-c", "-emit-llvm",
-                              os.path.join(VERIF, "tools", "cxxrt.cpp"), "-o", os.path.join(bcdir, "cxxrt.bc")])
-    if rc != 0:
-        print("prelude build failed:\n" + e)
+    if not build_prelude(bcdir):
         return 3
     srcs = sorted(set(s for q in qs for s in q.sources))
     with cf.ThreadPoolExecutor(NJOBS) as ex:
@@ -648,13 +657,12 @@ def write_evidence(pid, mod, tier, seed, results, wall, nviol=0, error=None):
 
 def replay(pid, mod, path):
     rp = json.load(open(path))
-    q = Query(rp["query"], rp["harness"], rp["entry"], rp["defs"], rp["sources"], keep_ctors=rp.get("keep_ctors", False))
+    q = Query(rp["query"], rp["harness"], rp["entry"], rp["defs"], rp["sources"], keep_ctors=rp.get("keep_ctors", False), prelude=rp.get("prelude", []))
     work = os.path.join(VERIF, ".work", pid + "_replay")
     shutil.rmtree(work, ignore_errors=True)
     bcdir = os.path.join(work, "bc")
     os.makedirs(bcdir)
-    sh(["clang++-14", "-std=gnu++20", "-O1", "-fno-exceptions", "-flto", "-fvisibility=hidden", "-w", "-c", "-emit-llvm",
-        os.path.join(VERIF, "tools", "cxxrt.cpp"), "-o", os.path.join(bcdir, "cxxrt.bc")])
+    build_prelude(bcdir)
     cfile, err = build_query(q, os.path.join(work, "q"), bcdir)
     if cfile is None:
         print("build failed: " + err)
